@@ -119,6 +119,12 @@ func (k Keeper) CreateRequestContext(
 	txHash := ctx.Context().Value(types.TxHash).([]byte)
 	msgIndex := ctx.Context().Value(types.MsgIndex).(int64)
 	requestContextID := types.GenerateRequestContextID(txHash, msgIndex)
+
+	// one message creates at most one context: never replace an existing one
+	if _, found := k.GetRequestContext(ctx, requestContextID); found {
+		return nil, sdkerrors.Wrapf(types.ErrInvalidRequestContextID, "request context %s already exists", requestContextID.String())
+	}
+
 	k.SetRequestContext(ctx, requestContextID, requestContext)
 
 	if requestContext.State == types.RUNNING {
